@@ -39,6 +39,19 @@ def units(ctx):
     from contracts import yaqltypes as _yt
     us += [contract_unit(c, world_setup=_yt.setup)
            for c in _yt.contracts() if 'C06' in c.serves]
+    # the merged layer of a MultiContext is the union of its members' layers
+    from contracts import contexts as _cx
+    us += [contract_unit(c, world_setup=_cx.setup)
+           for c in _cx.contracts() if c.short == 'MultiContext.get_functions']
+    from props._common import bounded_unit
+    us.append(bounded_unit(
+        'bounded:c06-perms', 'c06_perms.py',
+        'BOUNDED: every family of 2 and 3 two-parameter overloads over 5 '
+        'parameter types (a diamond of host classes, object, a lazy Lambda), '
+        'positional and keyword call, a no_kwargs / ordinary mix, and a '
+        'merged layer whose members register ONE implementation under '
+        'different declarations: the outcome is the same for every '
+        'enumeration order of the layer and every order of the members'))
     return us
 
 
